@@ -39,11 +39,14 @@ def file_bytes(name):
 
     path = f"/dev/shm/verif-c10-src-{os.getpid()}"
     if name == "empty":
-        tskit.TableCollection(1.0).dump(path)
+        tc = tskit.TableCollection(1.0)
+        tc.build_index()
+        tc.dump(path)
     elif name == "nodes":
         tc = tskit.TableCollection(2.0)
         tc.nodes.add_row(1, 0.0, metadata=b"abc")
         tc.nodes.add_row(0, 1.0)
+        tc.build_index()
         tc.dump(path)
     elif name == "full":
         tc = c09._full_tables()
